@@ -12,6 +12,7 @@
 #include "GenEigsBase.h"
 #include "Util/SelectionRule.h"
 #include "MatOp/DenseGenComplexShiftSolve.h"
+#include "Util/VerifHooks.h"
 
 namespace Spectra {
 
@@ -32,6 +33,9 @@ namespace Spectra {
 template <typename OpType = DenseGenComplexShiftSolve<double>>
 class GenEigsComplexShiftSolver : public GenEigsBase<OpType, IdentityBOp>
 {
+#ifdef SPECTRA_VERIF
+    friend struct ::SpectraVerifAccess;
+#endif
 private:
     using Scalar = typename OpType::Scalar;
     using Index = Eigen::Index;
